@@ -19,15 +19,21 @@ FACTORS = [(1, 1), (3, 2), (2, 1), (3, 1), (5, 2), (1, 2)]
 def gen_cases(seed: int, n_cases: int) -> list[dict]:
     r = random.Random(seed * 31 + 9)
     out = []
+    # the last sixth of the cases: populations of 64-128 (beyond anything a shipped configuration or test uses: size-
+    # dependent fast paths - spatial indices, neighbour lists - live there) with few, populous clusters, barely truncated
+    n_big = max(8, n_cases // 6)
     for k in range(n_cases):
-        n = r.choice([8, 10, 12, 16, 20, 25, 32, 40, 50, 60])
+        big = k >= n_cases - n_big
+        if big and k == n_cases - n_big:
+            r = random.Random(seed * 37 + 11)      # own stream: the smaller cases stay what they were
+        n = r.choice([64, 80, 100, 128]) if big else r.choice([8, 10, 12, 16, 20, 25, 32, 40, 50, 60])
         shape = r.choice(["uniform", "clusters", "clusters", "dense"])
         if shape == "uniform":
             pos = r.sample(range(0, 4000), n)
         elif shape == "dense":
             pos = r.sample(range(0, 3 * n), n)
         else:
-            centres = [r.randrange(0, 6000) for _ in range(r.choice([2, 3, 4, 6]))]
+            centres = [r.randrange(0, 6000) for _ in range(r.choice([2, 3, 3] if big else [2, 3, 4, 6]))]
             s = set()
             while len(s) < n:
                 s.add(r.choice(centres) + r.randrange(-40, 41))
@@ -38,7 +44,7 @@ def gen_cases(seed: int, n_cases: int) -> list[dict]:
         if r.random() < 0.35:      # tie groups among the non-best individuals
             g = r.choice([2, 3])
             ranks = [0 if x == 0 else 1 + (x - 1) // g for x in ranks]
-        tn, td = r.choice(TRUNCS)
+        tn, td = r.choice([(1, 1), (7, 8), (3, 4)]) if big else r.choice(TRUNCS)
         m = (n * tn) // td
         pts = [{"p": p, "r": rk} for p, rk in zip(pos, ranks)]
         # the cut must not split a tie group (then the definition leaves a choice: covered by the exhaustive tables)
